@@ -229,7 +229,7 @@ def r1cd_typestate(ctx, prog):
         buf, plen = out_buffer(g)
         a = OpState(g, prog, sv, opv, buf).go()
         rc_.paths += a.paths_returned
-        bad_c, bad_fin, bad_d, nsoft = None, None, None, 0
+        bad_c, bad_fin, bad_d, nsoft, bad_err = None, None, None, 0, None
         for s, st, rcl, rv in a.returns:
             soft = rv == 'CKR_BUFFER_TOO_SMALL' or (buf and rcl == 'OK' and (buf, False) in st.facts)
             if soft:
@@ -239,6 +239,9 @@ def r1cd_typestate(ctx, prog):
                 continue
             if st.aut.get('spent') and not st.aut.get('reset') and bad_c is None:
                 bad_c = (s, st)
+            # the helpers that finish an operation (single-part and *Final workers): whatever makes them fail, the operation they were called to finish is over
+            if finishing and not g['qname'].startswith('SoftHSM::C_') and rcl != 'OK' and not st.aut.get('reset') and bad_err is None:
+                bad_err = (s, st, rv)
             if finishing and rcl == 'OK' and not st.aut.get('reset') and bad_fin is None and (g['qname'].startswith('SoftHSM::C_') is False or a.returns):
                 # a successful, non-soft return of a single-part / final function: only when this function does the work itself
                 if st.aut.get('adv') or not helpers_of(prog, g):
@@ -247,6 +250,9 @@ def r1cd_typestate(ctx, prog):
         if bad_c:
             rc_.violation(g['qname'], site, 'return at line %s is reached after the algorithm object was finalised or failed (line %s) without resetOp(): the spent operation stays active' % (bad_c[0]['l'], bad_c[1].aut.get('spent')),
                           file=g['file'], line=bad_c[0]['l'], path=bad_c[1].show_path())
+        elif bad_err:
+            rc_.violation(g['qname'], site, 'the error return at line %s (%s) of this finishing function is reached without resetOp(): the call failed, yet the operation stays active and blocks the session (its siblings all end the operation on every error)' % (bad_err[0]['l'], bad_err[2]),
+                          file=g['file'], line=bad_err[0]['l'], path=bad_err[1].show_path())
         elif bad_fin:
             rc_.violation(g['qname'], site, 'successful return at line %s of a single-part/final function without resetOp(): the finished operation stays active' % bad_fin[0]['l'],
                           file=g['file'], line=bad_fin[0]['l'], path=bad_fin[1].show_path())
